@@ -114,6 +114,21 @@ def prop_case(case):
         fails.append(Failure('%s:interleaved:non-termination' % sim, str(e)))
     except Exception as e:
         fails.append(Failure('%s:interleaved:exception:%s' % (sim, exc_signature(e)), 'raised %r' % (e,)))
+    # the caller keeps its argument objects (graph, specification graphs, IC dict, option dicts) and calls again with the same seeds
+    if not case.get('R0_one_shot') and not case.get('rec_steps'):
+        try:
+            f, args, kw = simrun.build(case, False, budget=CallBudget(400000))
+            outs = []
+            for _rep in range(2):
+                random.seed(case['seed']); np.random.seed(case['seed'] % (2 ** 32))
+                outs.append(out_digest(case, f(*args, **kw), False))
+            if outs[0] != outs[1]:
+                fails.append(Failure('%s:same-argument-objects:not-repeatable' % sim,
+                                     'two calls with the same seeds and the very same argument objects give different output'))
+        except RunawayError as e:
+            fails.append(Failure('%s:same-argument-objects:non-termination' % sim, str(e)))
+        except Exception as e:
+            fails.append(Failure('%s:same-argument-objects:exception:%s' % (sim, exc_signature(e)), 'raised %r' % (e,)))
     if sim in CONT and False in states and True in states:
         if states[False] != states[True]:
             which = 'random' if states[False][0] != states[True][0] else 'numpy.random'
